@@ -1,4 +1,4 @@
-\* full, safety incl. the bound on silence: both nodes, discrete time, run-to-completion main loops; silence, cut, Shutdown+restart of b, CancelBackends of a
+\* full, safety incl. the bound on silence: both nodes, discrete time, run-to-completion main loops, node a before node b; the link may go silent and heal, one connection may be cut; 3 initial messages
 SPECIFICATION Spec
 CONSTANTS
   Links = {1}
@@ -14,9 +14,9 @@ CONSTANTS
   CancelOnReturn = TRUE
   BSilence = 1
   BCut = 1
-  ShutNodes = {"b"}
-  CancelNodes = {"a"}
-  BReborn = 1
+  ShutNodes = {}
+  CancelNodes = {}
+  BReborn = 0
   BAdv = 0
   BIdle = 0
   BDial = 0
